@@ -1020,6 +1020,7 @@ class Lazy:
         return self.v
 
 
+RECURSION_BOUND = int(os.environ.get('LLSYM_RECURSION', '4'))
 LAZY_MERGE = not os.environ.get('LLSYM_EAGER_MERGE')
 RELATIVE_JOINS = not os.environ.get('LLSYM_FULL_GUARD_JOINS')
 
@@ -1238,7 +1239,7 @@ class Result:
         self.stats = {'instrs': 0, 'calls': 0, 'blocks': 0, 'merges': 0}
 
 
-BOUND_PAT = re.compile(r'cap_exceeded|out_of_model')
+BOUND_PAT = re.compile(r'cap_exceeded|out_of_model|key_collision')
 PANIC_PAT = re.compile(r'panick|panic_|unwrap_failed|expect_failed|handle_alloc_error|slice_(start|end)_index|'
                        r'capacity_overflow|handle_error|_Unwind|abort|begin_panic|assert_failed|'
                        r'slice_index|str_index|option13|result13|cell.*already|rust_panic')
@@ -1257,6 +1258,7 @@ class Exec:
         self.depth = 0
         self.loopinfo = {}
         self.frames = []
+        self.active = {}
         self.gmem = Mem()
         self._init_globals()
 
@@ -1737,6 +1739,22 @@ class Exec:
             raise Unsupported('call depth exceeded (recursion?)')
         parse_body(f)
         self.res.funcs.add(f.name)
+        # bounded recursion: a function may be active at most RECURSION_BOUND times; a deeper call ends the
+        # path and its guard becomes an unwinding assertion (must be unreachable)
+        n_act = self.active.get(f.name, 0)
+        if n_act >= RECURSION_BOUND:
+            self.res.unwind.append(st_in.g)
+            self.res.stats['recursion_cut'] = self.res.stats.get('recursion_cut', 0) + 1
+            self.depth -= 1
+            return []
+        self.active[f.name] = n_act + 1
+        try:
+            return self._run_function_body(f, args, st_in)
+        finally:
+            self.active[f.name] = n_act
+            self.depth -= 1
+
+    def _run_function_body(self, f, args, st_in):
         env = {}
         for (t, name), a in zip(f.params, args):
             env[name] = a
@@ -1756,7 +1774,6 @@ class Exec:
                     m2.objs.pop(oid, None)
                 out.append((g, v, m2, pth))
             rets = out
-        self.depth -= 1
         return rets
 
     def exec_region(self, f, region, entry, pending, rets, exits, loops, idx):
